@@ -15,6 +15,7 @@ import ClairModel.Proofs.CpeGrammar
 import ClairModel.Proofs.CpeClean
 import ClairModel.Proofs.CpeFS
 import ClairModel.Proofs.CpeAccept
+import ClairModel.Proofs.CpeURI
 
 namespace ClairModel.Props.C19
 open ClairModel ClairModel.Cpe ClairModel.CpeTypes ClairModel.CpeSpec
@@ -389,6 +390,32 @@ theorem unbind_lenient_language_counterexample :
   · revert h1; decide
   · revert h1; decide
   · revert h1; decide
+
+/-! ## URIs -/
+
+/-- The package has no URI binder.  Binding a value string for a URI as the
+    naming specification prescribes (`CpeSpec.transformURI`: percent-encode
+    what is quoted, `%01`/`%02` for the unquoted specials) and unbinding it with
+    `(*Value).unbindURI` gives the same set value back, for every value string
+    a URI can carry (`CpeSpec.uriValueAux`: lower case, only punctuation,
+    specials, hyphen and period quoted).  The assembly of the whole URI (split
+    at colons, packed edition, trailing components) is not covered by a
+    theorem; the harness checks it on the implementation. -/
+theorem uri_value_roundtrip (v : Str) (h : CpeSpec.uriValueAux false v = true) (hv : v ≠ [])
+    (h45 : v ≠ [92, 45]) : unbindURIAttr (CpeSpec.transformURI v) = some ⟨.set, v⟩ :=
+  unbindURIAttr_transform v h hv h45
+
+/-- The hypotheses are satisfiable: `8\.*` binds to `8.%02`. -/
+example : CpeSpec.transformURI [56, 92, 46, 42] = [56, 46, 37, 48, 50] := by decide
+example : unbindURIAttr [56, 46, 37, 48, 50] = some ⟨.set, [56, 92, 46, 42]⟩ := by decide
+
+/-- An empty URI component reads as ANY and `-` as NA. -/
+theorem uri_logical_values : unbindURIAttr [] = some ⟨.any, []⟩ ∧ unbindURIAttr [45] = some ⟨.na, []⟩ := by
+  decide
+
+/-- Upper-case letters are not preserved by a URI (the unbinder lower-cases). -/
+theorem uri_uppercase_counterexample : unbindURIAttr [70, 111, 111] = some ⟨.set, [102, 111, 111]⟩ := by
+  decide
 
 /-! ## The CPE condition of rhel's matcher -/
 
